@@ -1,2 +1,3 @@
 pub mod ax;
+pub mod core;
 pub mod fun;
